@@ -10,7 +10,7 @@
 import ast
 import re
 
-from sa.interp import Interp, Scenario, Sym, Const, Bytes, render, merge_consts
+from sa.interp import alpha, Interp, Scenario, Sym, Const, Bytes, render, merge_consts
 from sa.loader import AnalysisError, dotted
 from sa import codec
 
@@ -33,8 +33,8 @@ def run(rep, prog, tier):
     rep.saw(fn=it)
     S = 'self._signatures'
     grammar = {
-        'cleartext': (False, [['EACH(sig in %s;sig)' % S]]),
-        'encrypted': (True, [['EACH(sig in %s;sig)' % S, 'EACH(pkt in self._sessionkeys;pkt)', 'self.message']]),
+        'cleartext': (False, [['EACH($1 in %s;$1)' % S]]),
+        'encrypted': (True, [['EACH($1 in %s;$1)' % S, 'EACH($2 in self._sessionkeys;$2)', 'self.message']]),
         'literal': (False, [['OPS', 'self._message', 'self._mdc', 'SIGS'], ['OPS', 'self._message', 'SIGS']]),
     }
     for kind, (enc, allowed) in grammar.items():
@@ -42,7 +42,7 @@ def run(rep, prog, tier):
         outs = Interp(prog, sc).run(it)
         rep.analysed['paths'] += len(outs)
         for s in outs:
-            ys = [render(y) for y in s.yields]
+            ys = alpha('\x00'.join(render(y) for y in s.yields)).split('\x00') if s.yields else []
             if kind != 'literal':
                 rep.check(ys in allowed, 'C20.1', 'PGPMessage.__iter__', '%s: %s' % (kind, ys),
                           {'cleartext': 'a cleartext message is followed by its signatures only',
@@ -50,8 +50,8 @@ def run(rep, prog, tier):
                           where=it.where, expected=allowed[0], found=ys, scenario=kind)
                 continue
             # literal: OPS^n LIT [MDC] SIG^n
-            m_ops = re.match(r'^EACH\((\w+) in (.*);(\w+)\.make_onepass\(\)\)$', ys[0]) if ys else None
-            m_sig = re.match(r'^EACH\((\w+) in (.*);(\w+)\)$', ys[-1]) if ys else None
+            m_ops = re.match(r'^EACH\((\$\d+) in (.*);(\$\d+)\.make_onepass\(\)\)$', ys[0]) if ys else None
+            m_sig = re.match(r'^EACH\((\$\d+) in (.*);(\$\d+)\)$', ys[-1]) if ys else None
             shape = ['OPS' if m_ops else ys[0] if ys else None] + ys[1:-1] + ['SIGS' if m_sig else ys[-1] if ys else None]
             rep.check(shape in allowed, 'C20.1', 'PGPMessage.__iter__', 'literal: %s' % ys,
                       'a signed message is one-pass packets, one literal packet, then the signatures (RFC 4880 11.3)', where=it.where,
@@ -128,14 +128,14 @@ def run(rep, prog, tier):
     ba = M.methods['__bytearray__']
     for s in Interp(prog, Scenario(inline=noinline, bind={'self.is_compressed': Const(True)})).run(ba):
         st = {p: v for p, v, l, _ in s.stores}
-        rep.check(st.get('comp.calg') == 'self._compression' and st.get('comp.packets') == '[pkt for pkt in self]', 'C20.5', 'PGPMessage.__bytearray__',
+        rep.check(st.get('comp.calg') == 'self._compression' and alpha(st.get('comp.packets', '')) in ('EACH($1 in self;$1)', 'list(self)', '[*self]'), 'C20.5', 'PGPMessage.__bytearray__',
                   'compressed: %s' % st, 'the compressed packet holds every packet of the message, with the message\'s algorithm', where=ba.where)
         order = [e[1] for e in s.events if e[0] == 'call' and e[1] in ('comp.update_hlen', 'comp.__bytearray__')]
         rep.check(order == ['comp.update_hlen', 'comp.__bytearray__'] and render(s.ret) == 'comp.__bytearray__()', 'C20.5', 'PGPMessage.__bytearray__',
                   'update_hlen before serialising %s' % order, 'the compressed packet\'s length is recomputed before it is written, and it is the whole output',
                   where=ba.where)
     for s in Interp(prog, Scenario(inline=noinline, bind={'self.is_compressed': Const(False)})).run(ba):
-        rep.check(render(s.ret) == 'EACH(pkt in self;pkt.__bytearray__())', 'C20.5', 'PGPMessage.__bytearray__', 'uncompressed: %s' % render(s.ret),
+        rep.check(alpha(render(s.ret)) == 'EACH($1 in self;$1.__bytearray__())', 'C20.5', 'PGPMessage.__bytearray__', 'uncompressed: %s' % render(s.ret),
                   'an uncompressed message is the concatenation of its packets in order', where=ba.where)
     ic = M.methods['is_compressed']
     for s in Interp(prog, Scenario(inline=noinline)).run(ic):
@@ -152,7 +152,7 @@ def run(rep, prog, tier):
     cd = prog.cls('pgpy.packet.packets', 'CompressedData')
     for s in Interp(prog, Scenario()).run(cd.methods['__bytearray__']):
         r = render(s.ret)
-        rep.check(r == 'self.header.__bytearray__() BYTE(self.calg) self.calg.compress(EACH(pkt in self.packets;pkt.__bytearray__()))', 'C20.5',
+        rep.check(alpha(r) == 'self.header.__bytearray__() BYTE(self.calg) self.calg.compress(EACH($1 in self.packets;$1.__bytearray__()))', 'C20.5',
                   'CompressedData.__bytearray__', r, 'a compressed packet is the algorithm octet and the compression of all inner packets together',
                   where=cd.where)
 
